@@ -377,6 +377,9 @@ class DataFile:
     # p_element for use across cumulative subtitles 
     self.cur_p_element = None
 
+    # whether a cumulative set is open, i.e. the last subtitle was its first or an intermediate member
+    self.is_in_cumulative_set = False
+
   def get_language(self) -> str:
     """Returns the language of the datafile as an RFC 5646 Language Tag
     """
@@ -478,7 +481,7 @@ class DataFile:
 
     # create a new subtitle if SN changes and we are not in cumulative mode
 
-    if tti.SN is not self.last_sn and tti.CS in (0x00, 0x01):
+    if tti.SN is not self.last_sn and (tti.CS in (0x00, 0x01) or not self.is_in_cumulative_set):
 
       self.last_sn =  tti.SN
 
@@ -582,3 +585,5 @@ class DataFile:
 
     if tti.CS in (0x01, 0x02):
       sub_element.push_child(model.Br(self.doc))
+
+    self.is_in_cumulative_set = tti.CS in (0x01, 0x02)
